@@ -176,7 +176,12 @@ def builder_spec(rnd, choice=None, kind=None):
     O["video3"] = obj("VideoStreaming", server=["ref", "srv1"], bits_per_pixel=q(0.07, "dimensionless"), ram_buffer_per_user=q(20, "MB"),
                       static_delivery_cpu_cost=q(3.7, "cpu_core * s / GB"))
     # ... and a streaming job of that service that no step calls yet (a draft that an edit can put into a step)
-    O["jvid3"] = obj("VideoStreamingJob", service=["ref", "video3"], resolution=["s", rnd.choice(RESOLUTIONS)], video_duration=q(25, "min"), refresh_rate=q(30, "1/s"))
+    # (on a fourth service and server of its own: video3 must stay without any job until an edit gives it one)
+    O["st4"] = obj("Storage", storage_capacity=q(1.13, "TB"))
+    O["srv3"] = obj("Server", storage=["ref", "st4"], server_type=["s", "autoscaling"], ram=q(128, "GB"))
+    O["video4"] = obj("VideoStreaming", server=["ref", "srv3"], bits_per_pixel=q(0.09, "dimensionless"), ram_buffer_per_user=q(30, "MB"),
+                      static_delivery_cpu_cost=q(2.9, "cpu_core * s / GB"))
+    O["jvid3"] = obj("VideoStreamingJob", service=["ref", "video4"], resolution=["s", rnd.choice(RESOLUTIONS)], video_duration=q(25, "min"), refresh_rate=q(30, "1/s"))
     if rnd.random() < 0.34:
         # an on-premise cloud-instance server whose number of instances is given at construction
         O["csrv"]["params"]["server_type"] = ["s", "on-premise"]
@@ -346,6 +351,12 @@ def builder_edit(rnd, spec):
     O = spec["objects"]
     k = rnd.choice(["resolution", "refresh", "duration", "bpp", "technology", "use_case", "tokens", "model", "instance", "bits_per_param", "cpu_cost",
                     "model", "instance", "technology", "job_service", "resolution2", "job_service", "attach_draft", "attach_draft"])
+    S = lambda o, a, v: {"op": "set", "obj": o, "attr": a, "value": v, "kind": "builder_" + k}
+    if k in ("job_service", "attach_draft") and "video3" in O and rnd.random() < 0.5 and not any(
+            o["cls"] == "VideoStreamingJob" and o["params"]["service"][1] == "video3" and n != "jvid3" for n, o in O.items()) \
+            and not any("jvid3" in o["params"]["jobs"][1] for o in O.values() if o["cls"] == "UsageJourneyStep"):
+        # a job re-pointed to the service that has no job yet and sits on a server outside the system
+        return S(rnd.choice(["jvid", "jvid2"]), "service", ["ref", "video3"])
     if k == "attach_draft" and "jvid3" in O:
         # a service job that no step calls yet is put into a step whose other jobs run on other servers
         steps = [st for st in ("s0", "s2") if st in O and "jvid3" not in O[st]["params"]["jobs"][1]]
@@ -353,7 +364,6 @@ def builder_edit(rnd, spec):
             m = rnd.choice(["append", "iadd"])
             return {"op": "list", "obj": rnd.choice(steps), "attr": "jobs", "method": m, "args": ["jvid3"] if m == "append" else [["jvid3"]],
                     "kind": "builder_attach_draft"}
-    S = lambda o, a, v: {"op": "set", "obj": o, "attr": a, "value": v, "kind": "builder_" + k}
     if k == "resolution": return S("jvid", "resolution", ["s", rnd.choice(RESOLUTIONS)])
     if k == "resolution2" and "jvid2" in O: return S("jvid2", "resolution", ["s", rnd.choice(RESOLUTIONS)])
     if k == "job_service" and "video2" in O:
